@@ -2,7 +2,7 @@
 import random
 import sys
 
-from .. import tlc, tracecheck, sched
+from .. import histrun, tlc, tracecheck, sched
 from ..core import MachineryError, digest, REPO  # noqa
 
 LEVEL = 'model_checking'
@@ -34,7 +34,7 @@ def battery():
     return digest(out)
 
 
-def do_op(op, keep):
+def do_op(op, keep, rng=None, pool=None):
     """execute one history operation; exceptions of the expected kind are part of the operation"""
     import sqlparse
     from sqlparse import lexer, keywords, tokens
@@ -79,6 +79,18 @@ def do_op(op, keep):
                 pass
         finally:
             sys.setrecursionlimit(old)
+    elif op == 'recursion_error_mid':
+        old = sys.getrecursionlimit()
+        try:
+            sys.setrecursionlimit(120)
+            try:
+                sqlparse.parse('select ' + '(' * 300 + ')' * 300 + '; select 2; select 3')
+            except SQLParseError:
+                pass
+        finally:
+            sys.setrecursionlimit(old)
+    elif op.startswith('pool_'):
+        histrun.pool_call(op, rng.choice(pool))
     elif op == 'parse_junk':
         try:
             sqlparse.parse(") end if ( case 'x \x00 [ ;; go")
@@ -100,6 +112,13 @@ def do_op(op, keep):
         raise MachineryError('unknown op ' + op)
 
 
+_WORK = None
+
+
+def _call_work(k, n):
+    return _WORK(k, n)
+
+
 def histories(ctx, quick):
     cfg = 'SPECIFICATION Spec\nCONSTANTS\n MaxLen = %d\n Emit = TRUE\nINVARIANT RestoredByDefaultInit\nINVARIANT PrintDone\n' % (2 if quick else 3)
     res = tlc.run(ctx.workdir, 'ApiHistory', cfg, workers=1, label='ApiHistory', coverage=False, timeout=900)
@@ -116,8 +135,39 @@ def histories(ctx, quick):
 def run(ctx):
     quick = ctx.tier == 'quick'
     rng = random.Random(ctx.seed)
+    # generated pool: SqlGen programs spelled with comments / hints / line breaks in the gaps; a third of them are
+    # reference texts of the battery, all of them are what the pool_* operations of ApiHistory.tla call with
+    from .. import sqlprog
+    import json as _json
+    import os as _os
+    import subprocess as _sub
+    progs = sqlprog.programs(ctx, 60 if quick else 400, 'C20_pool', fuel=11, maxout=50, seed=ctx.seed * 7 + 3)
+    pool = []
+    for p in progs:
+        sp = sqlprog.spell(p, rng, gaps=rng.choice(['cmt', 'cmtx', 'ws']), tight=rng.random() < 0.3, tail=True)
+        if sqlprog.lexes_as_intended(sp) and len(sp.text) < 400:
+            pool.append(sp.text)
+    pool += histrun.PROBES
+    if len(pool) < 10:
+        raise MachineryError('C20: generated pool too small')
+    btexts = pool[:12 if quick else 40]
+    ents = histrun.entries(btexts)
+    pf = _os.path.join(ctx.workdir, 'pool.json')
+    with open(pf, 'w') as f:
+        _json.dump({'battery_texts': btexts}, f)
+    env = dict(_os.environ, PYTHONPATH=REPO + _os.pathsep + _os.path.dirname(_os.path.dirname(_os.path.dirname(_os.path.abspath(__file__)))),
+               PYTHONHASHSEED='0')
+    pr = _sub.run([sys.executable, '-m', 'vlib.histrun', pf], stdout=_sub.PIPE, stderr=_sub.PIPE, text=True, env=env, timeout=600)
+    if pr.returncode != 0:
+        raise MachineryError('fresh-process battery failed: ' + pr.stderr[-400:])
+    fresh = _json.loads(pr.stdout.strip().splitlines()[-1])
+    ctx.cov['battery_entries'] = len(ents)
+    ctx.cov['pool_texts'] = len(pool)
+
     from sqlparse.lexer import Lexer
-    ndicts = len(Lexer.get_default_instance()._keywords)
+    from .. import extract
+    ndicts = len(extract.keyword_dicts())
+    sched.NDICTS = ndicts
     # ---- M: schedules, design level ----------------------------------------
     for n, lock in ((2, True), (3, True), (2, False)):
         ths = ', '.join('t%d' % i for i in range(1, n + 1))
@@ -165,6 +215,8 @@ def run(ctx):
     for k in (pts if not quick else pts[::3]):
         one(3, {k: 1, k + 3: 2}, 'p3')
     rej = tracecheck.validate(ctx, 'TraceLexerInit', traces, label='TraceLexerInit', min_chunk=40)
+    if sched.OPAQUE:
+        ctx.drift('the lexer keeps its dictionaries in another representation than a list: initialisation completeness is not observable, schedules judged on results only')
     drift = set(ctx.last_drift)
     if drift:
         ctx.drift('%d schedules show a change of the singleton by a thread that does not hold the lock (LexerInit.tla discipline)' % len(drift))
@@ -232,27 +284,66 @@ def run(ctx):
         nconc += 1
     ctx.cov['concurrent_call_schedules'] = nconc
     # ---- histories -----------------------------------------------------------------
+    def differs(hist_ops, order=None, sink=None):
+        # the battery is itself a history: its entries are evaluated in a random order (the first ones meet the state
+        # the history left behind) and each is compared with its own first-call-of-a-process answer
+        order = list(range(len(ents))) if order is None else order
+        got = histrun.evaluate([ents[i] for i in order])
+        bad = [order[k] for k in range(len(order)) if got[k] != fresh[order[k]]]
+        if bad:
+            kind, t, o = ents[bad[0]]
+            v = ({'history': hist_ops, 'tags': ['history'], 'clause': 'result-depends-on-history',
+                  'reference_call': [kind, t, o], 'differing_entries': len(bad)},
+                 'after history %s the reference call %s(%r, %s) (and %d more) gives another result than in a fresh process'
+                 % (hist_ops, kind, t[:80], o, len(bad) - 1))
+            if sink is None:
+                ctx.violation(*v)
+            else:
+                sink.append(v)
+        return bool(bad)
+    # the checking process has a history already (schedules, concurrent calls): it must not show either
+    differs(['<the schedule and concurrency parts of this check>'])
     pristine = battery()
     hs = histories(ctx, quick)
-    nh = 0
+
+    def work(k, nworkers):
+        """histories k, k+n, k+2n, ... replayed one after the other in one (forked) process"""
+        out = []
+        for nh in range(k, len(hs), nworkers):
+            h = hs[nh]
+            keep = []
+            hrng = random.Random(ctx.seed * 100003 + nh)
+            try:
+                for i, step in enumerate(h):
+                    do_op(step['op'], keep, hrng, pool)
+                    if step['cfg'] == 'default':
+                        b = battery()
+                        if b != pristine:
+                            out.append(({'history': [x['op'] for x in h[:i + 1]], 'tags': ['history'], 'clause': 'result-depends-on-history'},
+                                        'after history %s the reference calls give other results than in a fresh process' % [x['op'] for x in h[:i + 1]]))
+                            break
+                        if i == len(h) - 1 or not quick:
+                            order = hrng.sample(range(len(ents)), min(len(ents), 20 if quick else 60))
+                            if differs([x['op'] for x in h[:i + 1]], order, out):
+                                break
+            except Exception as e:  # noqa
+                out.append(({'history': [x['op'] for x in h], 'tags': ['history-exception', type(e).__name__], 'clause': 'history-raised'},
+                            'history %s raised %s' % ([x['op'] for x in h], type(e).__name__)))
+            finally:
+                __import__('sqlparse').lexer.Lexer.get_default_instance().default_initialization()
+                del keep
+        return out
+    import multiprocessing as _mp
+    global _WORK
+    _WORK = work
+    NW = 12
+    with _mp.get_context('fork').Pool(NW) as mpool:
+        results = mpool.starmap(_call_work, [(k, NW) for k in range(NW)])
+    for out in results:
+        for case, what in out:
+            ctx.violation(case, what)
+    nh = len(hs)
     for h in hs:
-        keep = []
-        try:
-            for i, step in enumerate(h):
-                do_op(step['op'], keep)
-                if step['cfg'] == 'default':
-                    b = battery()
-                    if b != pristine:
-                        ctx.violation({'history': [x['op'] for x in h[:i + 1]], 'tags': ['history'], 'clause': 'result-depends-on-history'},
-                                      'after history %s the reference calls give other results than in a fresh process' % [x['op'] for x in h[:i + 1]])
-                        break
-        except Exception as e:  # noqa
-            ctx.violation({'history': [x['op'] for x in h], 'tags': ['history-exception', type(e).__name__], 'clause': 'history-raised'},
-                          'history %s raised %s' % ([x['op'] for x in h], type(e).__name__))
-        finally:
-            __import__('sqlparse').lexer.Lexer.get_default_instance().default_initialization()
-            del keep
-        nh += 1
         ctx.evals()
         ctx.nontrivial(tuple(x['op'] for x in h))
     ctx.sample({'history': [x['op'] for x in hs[len(hs) // 2]]})
